@@ -496,7 +496,13 @@ class IMAPClientCommand:
         init method so that if we hit a parsing exception the actual object
         gets created at least and potentially has self.tag set.
         """
-        self._parse()
+        try:
+            self._parse()
+        except RecursionError as exc:
+            # e.g. thousands of nested "NOT" or "(" in a search program. The
+            # client gets a BAD like for any other command we can not parse.
+            #
+            raise BadSyntax(value="Command is nested too deeply") from exc
         return self
 
     ####################################################################
@@ -1901,11 +1907,16 @@ class IMAPClientCommand:
         assert date_exp
         match = _date_re.match(date_exp)
         assert match
-        return date(
-            year=int(match.group("year")),
-            month=_month[match.group("month").lower()],
-            day=int(match.group("day")),
-        )
+        try:
+            return date(
+                year=int(match.group("year")),
+                month=_month[match.group("month").lower()],
+                day=int(match.group("day")),
+            )
+        except ValueError as exc:
+            # Matches the grammar but is not a date (31-Feb-2020, year 0)
+            #
+            raise BadSyntax(value=f"Invalid date '{date_exp}': {exc}") from exc
 
     #######################################################################
     #
@@ -1927,7 +1938,14 @@ class IMAPClientCommand:
 
         # We need to strip off the "" surrounding the date-time string.
         #
-        return parsedate(date_time[1:-1])
+        try:
+            return parsedate(date_time[1:-1])
+        except (ValueError, OverflowError) as exc:
+            # Matches the grammar but is not a date-time (99-Jan-2020 ...)
+            #
+            raise BadSyntax(
+                value=f"Invalid date-time {date_time}: {exc}"
+            ) from exc
 
     #######################################################################
     #
